@@ -60,7 +60,9 @@ def data_source(fmt, table, name="data"):
         if any(len(c) > w or "\n" in c or "\r" in c for row in table for c, w in zip(row, WIDTHS)) or any(len(row) != len(WIDTHS) for row in table):
             return None
         return harness.NamedStringIO("".join("".join(c.ljust(w) for c, w in zip(row, WIDTHS)) + "\n" for row in table), name + ".txt")
-    illegal = any(ord(ch) < 32 and ch not in "\t\n" or 0xD800 <= ord(ch) < 0xE000 for row in table for c in row for ch in c)
+    illegal = any(ord(ch) < 32 and ch not in "\t\n" or 0xD800 <= ord(ch) < 0xE000 for row in table for c in row if isinstance(c, str) for ch in c)
+    if fmt == "ods" and any(not isinstance(c, str) for row in table for c in row):
+        return None
     if illegal:
         return None
     if fmt == "ods":
@@ -74,10 +76,29 @@ def data_source(fmt, table, name="data"):
     sheet = workbook.add_worksheet()
     for y, row in enumerate(table):
         for x, cell in enumerate(row):
-            if cell != "":
+            if isinstance(cell, (list, tuple)):
+                # a natively typed cell: ["native", kind, value]
+                _, kind, value = cell
+                if kind in ("date", "time", "duration"):
+                    sheet.write_number(y, x, value, workbook.add_format({"num_format": {"date": "yyyy-mm-dd", "time": "hh:mm:ss", "duration": "[h]:mm:ss"}[kind]}))
+                elif kind == "number":
+                    sheet.write_number(y, x, value)
+                elif kind == "bool":
+                    sheet.write_boolean(y, x, value)
+                elif kind == "error":
+                    sheet.write_formula(y, x, "=1/0" if value == "#DIV/0!" else "=NA()", None, value)
+                else:
+                    raise ValueError(kind)
+            elif cell != "":
                 sheet.write_string(y, x, cell)
     workbook.close()
     return path
+
+
+# natively typed Excel cells: date / time formatted numbers outside the range of dates, extreme numbers, booleans, error values
+NATIVE = [["native", "date", v] for v in (-1, -0.5, 0, 0.25, 1, 1.5, 59, 60, 60.5, 61, 2958465, 2958466, 1e15)] + \
+         [["native", "time", v] for v in (-0.25, 0.999999, 1.25, 60.75)] + [["native", "duration", v] for v in (1.5, 59.9, 100.25)] + \
+         [["native", "number", v] for v in (1e308, -1e308, 5e-324, 2.0**63, 0.1)] + [["native", "bool", True], ["native", "bool", False], ["native", "error", "#DIV/0!"], ["native", "error", "#N/A"]]
 
 
 def classify(error, errors):
@@ -190,6 +211,10 @@ def where_name(row, column):
 
 def judge(case, part):
     """case: {"format", "cid": [[row, column, value], ...], "data": [[row, column, value], ...]} (injected hostile cells)"""
+    if "target" in case:  # replay of a container or stream case
+        return container_case(case, part)
+    if "ending" in case:
+        return stream_case(case, part)
     fmt = case["format"]
     cid_rows = [list(r) for r in base_rows(fmt)]
     table = [list(r) for r in DATA]
@@ -213,6 +238,8 @@ def judge(case, part):
 
 
 def short(value):
+    if isinstance(value, (list, tuple)):
+        return "%s:%r" % (value[1], value[2])
     text = repr(value)
     return text if len(text) <= 14 else text[:13] + "…"
 
@@ -239,6 +266,29 @@ def container_case(case, part):
     m = harness.modules()
     errors = m["errors"]
     fmt = case["format"]
+    if case["target"] == "xls":
+        # the tree's own binary Excel workbook with one bit flipped (no independent .xls producer exists here)
+        content = readermachine.xls_material()
+        if content is None or case["at"] >= len(content):
+            part.note("no .xls material in the tree, or offset beyond its size (not judged)")
+            return
+        part.evaluations += 1
+        part.nontrivial += 1
+        at = case["at"]
+        path = os.path.join(readermachine.tmpdir(), "corrupt.xls")
+        with open(path, "wb") as stream:
+            stream.write(content[:at] + bytes([content[at] ^ (1 << case["bit"])]) + content[at + 1:])
+        rows = [["D", "Format", "Excel"], ["D", "Header", "1"]] + [["F", name] for name in readermachine.XLS_FIELDS]
+        with readermachine.quiet_stdout():
+            if not readermachine.xls_terminates(path):
+                leaks = [("rows", "does-not-terminate")]
+            else:
+                leaks = exercise("excel", rows, None, part, with_main=True, data_path=path)
+        part.validated += 1
+        part.outcome("leak" if leaks else "clean")
+        for where, exception in leaks:
+            part.fail("excel|container:data:xls:flip:%s|%s|%s" % (readermachine.xls_region(content, at), where.split(":")[0], exception), case, "success, InterfaceError or DataError", [where, exception])
+        return
     part.evaluations += 1
     part.nontrivial += 1
     if case["target"] == "data":
@@ -434,6 +484,13 @@ def container_cases(tier):
     cases = []
     step = 16 if tier == "quick" else 1
     bits = (0, 4, 7) if tier == "quick" else tuple(range(8))
+    material = readermachine.xls_material()
+    if material is not None:
+        for at in range(0, len(material), 8 if tier == "quick" else 1):
+            for bit in (0, 7) if tier == "quick" else tuple(range(8)):
+                cases.append({"format": "excel", "target": "xls", "kind": "flip", "at": at + (bit % 5 if tier == "quick" else 0), "bit": bit})
+        # neighbouring offsets behave alike (a whole sector of cases may run into the time limit): deal them out over the work items
+        cases = [case for start in range(61) for case in cases[start::61]]
     for fmt in ("ods", "excel"):
         source = data_source(fmt, DATA, "structure")
         content = open(source, "rb").read()
@@ -476,6 +533,10 @@ def run(ctx):
             for column in range(len(DATA[0])):
                 for value in HOSTILE:
                     cases.append({"format": fmt, "data": [[row, column, value]], "main": row == 0 and fmt in ("delimited", "excel")})
+    for row in range(len(DATA) if not quick else 1):
+        for column in range(len(DATA[0])):
+            for value in NATIVE:
+                cases.append({"format": "excel", "data": [[row, column, value]], "main": column == 0})
     single = len(cases)
     if not quick:
         short = HOSTILE[:30]
@@ -497,7 +558,7 @@ def run(ctx):
     stream = stream_cases()
     ctx.pmap(MOD, "streams", engine.chunks(stream, 400), label="C10 streams")
     ctx.bound = {"stream cases": "%d: fixed and delimited data as line-ending preserving streams in 4 line-ending styles (LF, CRLF, CR, mixed), one-character field first / last, one character deleted or replaced (x, CR, LF, quote) at every offset" % len(stream),
-                 "hostile pool": len(HOSTILE), "single hostile cell cases": single, "pair cases": len(cases) - single,
+                 "hostile pool": len(HOSTILE), "natively typed Excel cells": len(NATIVE), "single hostile cell cases": single, "pair cases": len(cases) - single,
                  "container cases": "%d (truncation and low/high bit flip at every %s offset of ods/xlsx files, every offset of csv / fixed text; bits %s of every byte of the zip local headers, central directory and end record; data files of 4 formats, CID files as csv, ods, xlsx)" % (len(corrupt), "16th" if quick else "single", "0, 4, 7" if quick else "0..7")}
     ctx.rule = ("one hostile value at a time (thorough: pairs) in every cell of every row of 4 valid base CIDs and of their 3-row data; each case runs Cid.read, rows x 3 modes, validate, Writer and "
                 "applications.main; non-trivial = every case (each injects a fault); states = distinct vectors of outcomes over the entry points (loaded / error class per call, exit code); any escaping exception other than "
